@@ -344,9 +344,14 @@ def load_known() -> List[Dict[str, Any]]:
     return json.loads(KNOWN_PATH.read_text())
 
 
-def finish(ctx: Ctx, started: float, seed: int) -> int:
-    """Print verdict lines, write evidence, return the exit code."""
+def finish(ctx: Ctx, started: float, seed: int, partial: Optional[str] = None) -> int:
+    """Print verdict lines, write evidence, return the exit code.
+    ``partial``: the analysis stopped early with this message (anchor vanished ...); violations
+    found before that point are still reported, floors are not enforced."""
     prop = ctx.prop
+    if partial is not None:
+        ctx.floors = {}
+        ctx.extra["analysis_error"] = partial
     # instance floors: a rule that matched fewer sites than confirmed by hand is an analysis error
     counts: Dict[str, int] = {}
     for inst in ctx.instances:
